@@ -123,6 +123,12 @@ def gen_framework_config(rng):
         insts.append({"cls": rng.choice(classes)["name"], "name": "robot", "prefix": None})
     if rng.random() < 0.7:
         insts.append({"cls": rng.choice(classes)["name"], "name": rng.choice(["Two Ball", "auto1", "Center"]), "prefix": "autonomous"})
+    autos = [i for i in insts if i["prefix"] == "autonomous"]
+    if autos and rng.random() < 0.35:
+        # during a match (FMS attached) a second mode class with the same MODE_NAME is tolerated by the selector;
+        # it is still set up under /autonomous/<MODE_NAME>/
+        insts.append(dict(autos[0]))
+        cfg["fms"] = True
     cfg["instances"] = insts
     cfg["framework"] = True
     cfg["pre"] = []
@@ -468,6 +474,10 @@ def _framework_setup(world, cfg, mod, insts, prop, probe):
                     "    def on_enable(self): pass\n    def on_disable(self): pass\n    def on_iteration(self, tm): pass\n")
     sys.path.insert(0, rundir)
     importlib.invalidate_caches()
+    if cfg.get("fms"):
+        DS = world.wpilib.simulation.DriverStationSim
+        DS.setFmsAttached(True)
+        DS.notifyNewData()
     ns = mod.__dict__
     ns["magicbot"] = magicbot
     L = []
@@ -490,13 +500,19 @@ def _framework_setup(world, cfg, mod, insts, prop, probe):
                         sig=f"{prop}:framework_setup_raised")
     probe("framework_setup_runs")
     objs = []
+    taken = set()
     for inst in insts:
         if inst["prefix"] == "components":
             objs.append(getattr(robot, inst["name"]))
         elif inst["prefix"] is None:
             objs.append(robot)
         else:
-            objs.append(robot._automodes.modes[inst["name"]])
+            cands = [m for m in robot._automodes.modes.values() if getattr(m, "MODE_NAME", None) == inst["name"] and id(m) not in taken]
+            if not cands:
+                raise Violation(prop, "framework_mode_missing", f"the selector does not offer a mode named {inst['name']!r} (modes: {sorted(robot._automodes.modes)})",
+                                sig=f"{prop}:framework_mode_missing")
+            taken.add(id(cands[0]))
+            objs.append(cands[0])
     return objs
 
 
